@@ -1,13 +1,13 @@
 # C06: restraints implement their documented potentials and time schedules
 from cvsym import checklib as CL
-FNS = ['h_c06_potentials', 'h_c06_centers_continuous', 'h_c06_centers_staged', 'h_c06_k_continuous', 'h_c06_k_staged']
+FNS = ['h_c06_potentials', 'h_c06_centers_continuous', 'h_c06_centers_staged', 'h_c06_k_continuous', 'h_c06_k_staged', 'h_c06_k_staged_decoupling']
 def groups(tier):
-    b = {'steps': 'step t, first step of the run r, first step of the schedule f: mathematical integers in [0, 60] with r <= t, f <= t', 'schedules': 'targetNumSteps 10 / 5 x 4 stages / 8 x 3 stages with 3 equilibration steps, lambdaExponent 2',
+    b = {'steps': 'step t, first step of the run r, first step of the schedule f: mathematical integers in [0, 60] with r <= t, f <= t', 'schedules': 'targetNumSteps 10 / 5 x 4 stages / 8 x 3 stages with 3 equilibration steps (targetForceConstant and decoupling), lambdaExponent 2',
          'values': 'all real values (0 < x < 1000, |z| < 1000)', 'pre-state': 'arbitrary centre / force constant / accumulated work / TI accumulator / stage'}
     return [CL.Group('C06_restraints.cpp', FNS, setup=['h_c06_setup'], bounds=b)]
 MANIFEST = {
  'level_text': 'Bounded symbolic model checking of the real restraint code on biases built from configuration text. Potentials: harmonic on a periodic variable (shortest image), one- and two-sided walls with relative constants, closest-wall rule on a periodic variable, linear: energy and force equal closed forms written independently in the harness, for all values. Schedules: one inductive step of the real update() from an arbitrary pre-state at a symbolic step t with symbolic run start and schedule start: centre / force constant / stage are the closed-form function of t alone, accumulated work grows by force x centre increment (dU/dk x k increment), the staged TI accumulator counts exactly the post-equilibration steps and the logged dA/dlambda is its mean.',
- 'level_note': 'exact-real reading; steps are mathematical integers in [0,60]; concrete schedule lengths; lambdaExponent 2 (integer power, exact); log text is captured with in-band tokens (the number after "dA/dLambda=" is compared, not its formatting). ABMD and histogramRestraint potentials are covered through C01 (force = -dE/dx) only; lambdaSchedule lists, decoupling, vector/quaternion centres outside.',
+ 'level_note': 'exact-real reading; steps are mathematical integers in [0,60]; concrete schedule lengths; lambdaExponent 2 (integer power, exact); log text is captured with in-band tokens (the number after "dA/dLambda=" is compared, not its formatting). ABMD and histogramRestraint potentials are covered through C01 (force = -dE/dx) only; lambdaSchedule lists, continuous decoupling (staged decoupling is covered), vector/quaternion centres outside.',
  'technique': 'symbolic execution of LLVM IR + SMT (z3): inductive step with symbolic integer step numbers, exact-real closed forms',
  'design_ref': 'DESIGN.md 5/C06'}
 def run():
